@@ -9,6 +9,7 @@ import (
 
 	"github.com/tsawler/tabula"
 	"github.com/tsawler/tabula/contentstream"
+	"github.com/tsawler/tabula/reader"
 )
 
 type c03doc struct {
@@ -170,6 +171,64 @@ func init() {
 			tb, _, eb := tabula.Open(fp[1]).Text()
 			r.Check(ea == nil && eb == nil && strings.Contains(ta, "X ZXY") && strings.Contains(tb, "a cab in a cab"), "history:font-of-another-document",
 				fmt.Sprintf("two documents with different fonts under the same object number, read one after the other: %q then %q", ta, tb), nil)
+		}
+		// (0b) the pages of one open document: the text of a page is the same when it is read again and whatever was read before it
+		{
+			cm := "/CIDInit /ProcSet findresource begin 12 dict begin begincmap 1 begincodespacerange <00> <FF> endcodespacerange 3 beginbfchar <41> <0058> <42> <0059> <43> <005A> endbfchar endcmap end end"
+			res := "<< /Font << /F1 5 0 R >> /XObject << /Fm 7 0 R >> >>"
+			form := c02StreamObj("/Type /XObject /Subtype /Form /BBox [0 0 200 200] /Resources << /Font << /F1 8 0 R >> >>", []byte("BT /F1 10 Tf 10 10 Td (ABC) Tj ET"))
+			pdf := c02RawPDF([]string{
+				"<< /Type /Catalog /Pages 2 0 R >>",
+				"<< /Type /Pages /Kids [3 0 R 4 0 R] /Count 2 /Resources 6 0 R /MediaBox [0 0 612 792] >>",
+				"<< /Type /Page /Parent 2 0 R /Contents 10 0 R >>",
+				"<< /Type /Page /Parent 2 0 R /Contents 11 0 R >>",
+				"<< /Type /Font /Subtype /Type1 /BaseFont /Helvetica /Encoding /WinAnsiEncoding >>",
+				res,
+				form,
+				"<< /Type /Font /Subtype /TrueType /BaseFont /ABCDEF+Sub /FirstChar 32 /LastChar 32 /Widths [250] /ToUnicode 9 0 R >>",
+				c02StreamObj("", []byte(cm)),
+				c02StreamObj("", []byte("BT /F1 12 Tf 72 700 Td (ABC page one) Tj ET /Fm Do BT /F1 12 Tf 72 650 Td (ABC after the form) Tj ET")),
+				c02StreamObj("", []byte("BT /F1 12 Tf 72 700 Td (ABC page two) Tj ET")),
+			}, "")
+			path := tmpFile(r, ".pdf", pdf)
+			pageText := func(rd *reader.Reader, i int) string {
+				pg, err := rd.GetPage(i)
+				if err != nil {
+					return "error: " + err.Error()
+				}
+				fr, err := rd.ExtractTextFragments(pg)
+				if err != nil {
+					return "error: " + err.Error()
+				}
+				var b strings.Builder
+				for _, f := range fr {
+					b.WriteString(f.Text + "|")
+				}
+				return b.String()
+			}
+			fresh := func(i int) string {
+				rd, err := reader.Open(path)
+				if err != nil {
+					return "error: " + err.Error()
+				}
+				defer rd.Close()
+				return pageText(rd, i)
+			}
+			alone := []string{fresh(0), fresh(1)}
+			rd, err := reader.Open(path)
+			if err == nil {
+				seq := []int{0, 0, 1, 0, 1, 1}
+				okR, why := true, ""
+				for _, i := range seq {
+					if got := pageText(rd, i); got != alone[i] {
+						okR, why = false, fmt.Sprintf("page %d read on a reader that has read other pages: %q; read alone: %q", i+1, got, alone[i])
+					}
+				}
+				rd.Close()
+				r.Check(okR && strings.Contains(alone[0], "XYZ") && strings.Contains(alone[1], "ABC page two"), "history:pages-of-one-reader", why, Bs(path))
+			} else {
+				r.Check(false, "history:pages-of-one-reader", "generated document does not open: "+err.Error(), Bs(path))
+			}
 		}
 		// (a) repetition
 		reps := 7
